@@ -541,6 +541,28 @@ func (fr *frame) loopEnv(b *ssa.BasicBlock, st *State, phiVals map[*ssa.Phi]*Val
 				}
 			}
 		}
+		// riN: the range index of (enclosing) loop N, e.g. ri1 inside loop 2
+		if strings.HasPrefix(name, "ri") && len(name) > 2 {
+			var n int
+			if _, err := fmt.Sscanf(name[2:], "%d", &n); err == nil {
+				for _, li := range fr.loopOrd {
+					if li.ordinal != n || !li.header.Dominates(b) {
+						continue
+					}
+					for _, ins := range li.header.Instrs {
+						phi, ok := ins.(*ssa.Phi)
+						if !ok {
+							break
+						}
+						if phi.Comment == "rangeindex" {
+							if v, ok := fr.vals[phi]; ok {
+								return valTV(v), true
+							}
+						}
+					}
+				}
+			}
+		}
 		if v, ok := fr.resolveLocal(name, b); ok {
 			if v.Loc != nil && v.Loc.Kind == LGlobal {
 				// a private local cell: its current content
